@@ -4,7 +4,7 @@ import AnySyncModel.KV.Model
   new  <store>                                   → `ok`
   raw  <store> <fault> <val>*                    → `<res> st=… ix=… adv=<0|1>`
   set  <store> <fault> <own:0|1> <val>           → same
-  exch <storeA> <storeB>                         → `st=… ix=… adv=… | st=… ix=… adv=…` (A then B)
+  exch <storeA> <storeB> <fault>                 → `st=… ix=… adv=… | st=… ix=… adv=…` (A then B; the fault hits the server's write)
   val   = vid:slot:innerSlot:ts:DIPKW   (five flag characters 0/1: decodes, idSig, peerSig, aclKnown, canWrite)
   fault = none | begin | find.<k> | upsert.<k> | head | commit
   res   = ok:<vid,…|-> | err | perm
@@ -79,16 +79,16 @@ def step (t : Table) (line : String) : Table × String :=
       | some s => let r := localSet f own v s; (upsert t n r.1, s!"{showRes r.2} {showState r.1}")
       | none => (t, "bad-op")
     | _, _, _, _ => (t, "bad-op")
-  | ["exch", a, b] =>
-    match a.toNat?, b.toNat? with
-    | some a, some b =>
+  | ["exch", a, b, fb] =>
+    match a.toNat?, b.toNat?, parseFault fb with
+    | some a, some b, some fb =>
       if a = b then (t, "bad-op") else
       match lookup t a, lookup t b with
       | some sa, some sb =>
-        let r := exchange sa sb
+        let r := exchangeF fb sa sb
         (upsert (upsert t a r.1) b r.2, s!"{showState r.1} | {showState r.2}")
       | _, _ => (t, "bad-op")
-    | _, _ => (t, "bad-op")
+    | _, _, _ => (t, "bad-op")
   | _ => (t, "bad-op")
 
 end AnySync.Driver.KV
